@@ -172,6 +172,12 @@ func (o *object) call(this Value, argumentList []Value, eval bool, frm frame) Va
 
 		// Enter a scope, name from the native object...
 		rt := o.runtime
+		if rt.scope == nil {
+			// Called from Go while no script runs (Value.String, Object.Call, ...): work in the
+			// global context, so that nested built-in calls are counted against the stack depth limit.
+			rt.enterGlobalScope()
+			defer rt.leaveScope()
+		}
 		if rt.scope != nil && !eval {
 			rt.enterFunctionScope(rt.scope.lexical, this)
 			rt.scope.frame = frame{
